@@ -53,6 +53,44 @@ CLAIMED = {
             "Trusted: TLC; the arena allocator of harness/rtalloc. cabi_realloc is compiled natively from its source text "
             "extracted at build time (it is cfg'd out on linux-gnu).",
             "5 C24"),
+    "C01": ("model_checking",
+            "TLA+ transcription of the canonical ABI (CanonABI.tla); TLC enumerates a bounded type x value x pointer-width "
+            "universe and emits expected flat values and memory images; an interpreting Bindgen executes the real generator's "
+            "instruction streams and compares",
+            "The Component Model ABI (alignment, size, flatten, store, lower_flat) is written once in TLA+. TLC evaluates it on "
+            "every type of the level-1 (thorough: level-2) closure x 3-8 boundary values x W in {4,8} and checks the spec's own "
+            "consistency; each vector is run through abi::lower_flat, lower_to_memory and lift_from_memory (what was lowered and "
+            "the spec's image with garbage padding) in both list modes; bytes, core types, pointers/blocks and sizes must agree.",
+            "Trusted: TLC, the transcription of the Component Model spec, the 600-line instruction interpreter. Not covered: "
+            "types deeper than the bound, string encodings other than UTF-8.",
+            "5 C01"),
+    "C02": ("model_checking",
+            "TLA+ calling-convention spec (CallConv.tla) enumerated by TLC over signatures crossing the 16/4/1 limits; "
+            "abi::call executed by the interpreter in 5 (variant, direction, async) combinations with the harness as the "
+            "other side, using the spec's encodings",
+            "For each of ~570 signatures x widths x value shifts TLC emits core signatures, flat/indirect parameter encodings, "
+            "result encodings and task.return parameters; the glue must perform exactly one call with the canonical core "
+            "signature, pass/receive the spec's values, free an export's parameter record exactly once with its layout, and "
+            "leave nothing on the stack (generator asserts are captured).",
+            "Trusted: as C01. wit-parser's wasm_signature is cross-checked against the spec (mismatch = tool error).",
+            "5 C02"),
+    "C03": ("model_checking",
+            "Heap ownership derived from CanonABI.tla (blocks of Store, OwnedHandles, MayOwnHeap); the real cleanup "
+            "instruction streams executed after the real lowering; frees/drops compared as multisets",
+            "For every C01 vector the real lowering allocates through realloc, then post_return and deallocate_lists[_and_own]"
+            "_in_types (direct and indirect operands) are executed: each spec block must be freed once with its size/align, "
+            "nothing else, handles dropped exactly in lists-and-own mode, and post-return needed iff the type may own heap.",
+            "Trusted: as C01.",
+            "5 C03"),
+    "C04": ("model_checking",
+            "TLA+ spec SlotJoin.tla validates the real abi::cast table and the real flattening of 1000+ variant shapes "
+            "(VAL mode): join = canonical join at both widths, casts canonical and lossless on reachable pairs",
+            "All 49 class pairs and the reachable-pair set are exhaustive; value-level equality is decided on byte-distinct "
+            "patterns, which is complete for compositions of reinterpret/zero-extend/wrap. The same casts are executed inside "
+            "C01's variant vectors.",
+            "Trusted: TLC; the meaning of primitive Bitcast names. Per-backend perform_cast emitters are covered only for "
+            "what C05/C10/C14 execute or extract.",
+            "5 C04"),
 }
 
 PENDING_REASON = "check not built yet in this session (planned, see DESIGN.md section 5); not claimed until it runs"
